@@ -98,4 +98,32 @@ theorem tie_reserve_runners :
                           "pkg/scheduler/frameworkext:frameworkExtenderImpl.RunReservePluginsReserve"] ∧
     C06.reserveParallelSites = 1 := by decide
 
+/-- **informer glue** (round 3): the statement / guard order the event model (`decodeUpdate`, `decodeDelete`, `Mgr.apply`)
+    mirrors.  OnAdd / OnUpdate hand EVERY pod object (pair) to updatePod - the only statements before the call are the
+    type assertions with their `if !ok { return }` (a further guard, e.g. one that skips status-only updates, shows up
+    as code 9: updatePod is the only path that releases a pod whose phase turned Succeeded / Failed and that re-records a
+    pod dropped while its node had no valid topology - `terminal_update_releases`, `topology_late_rerecorded`);
+    updatePod: nodeName == "" (release the old pod's node, return) → terminated (deletePod, return) → the three parse
+    errors → empty allocation → resourceManager.Update; deletePod: nodeName == "" → Release;
+    resourceManager.Update: invalid topology (return) → getOrCreateNodeAllocation → NodeAllocation.update. -/
+theorem tie_event_glue :
+    C06.podOnAdd = [0, 1, 2] ∧ C06.podOnUpdate = [0, 1, 0, 1, 2] ∧ C06.podUpdatePod = [1, 2, 3, 3, 3, 4, 5] ∧
+    C06.podDeletePod = [1, 6] ∧ C06.rmUpdateStmts = [7, 10, 11] := by decide
+
+/-- **get-or-create of a node's ledger object** (round 3).  `resourceManager.getOrCreateNodeAllocation` looks the node
+    name up and stores a new NodeAllocation inside ONE exclusive section of the manager lock (or re-checks under the
+    write lock after a read-locked fast path): the shapes for which `goc_no_lost_update` holds.  A fast path whose miss
+    branch stores without looking again is the shape refuted by `goc_blind_store_counterexample` (two goroutines touching
+    a node name for the first time: the later store replaces the object the earlier pod record went into).  Nobody
+    else stores into the map; onNodeDelete only deletes. -/
+theorem tie_getorcreate_rechecks :
+    (gocShape C06.rmGetOrCreate).map (·.2) = some true ∧
+    C06.nodeAllocationsWriters = ["resourceManager.getOrCreateNodeAllocation", "resourceManager.onNodeDelete"] := by
+  decide
+
+/-- `goc_no_lost_update` for the code as it is -/
+theorem tie_getorcreate_safe (fast : Bool) (h : (gocShape C06.rmGetOrCreate).map (·.1) = some fast) (sched : List Nat) :
+    ∀ r ∈ (grun fast true sched).recs, (grun fast true sched).map = some r.1 :=
+  (goc_no_lost_update fast sched).2.1
+
 end KoordVerif.C06
